@@ -3,7 +3,6 @@
 package cookie
 
 import (
-	"sort"
 	"crypto/hmac"
 	"crypto/sha256"
 	"encoding/base64"
@@ -13,6 +12,7 @@ import (
 	"net/http/cookiejar"
 	"net/http/httptest"
 	"net/url"
+	"sort"
 	"strconv"
 	"strings"
 	"testing"
@@ -122,12 +122,12 @@ func vConfigs() []vCfg {
 		mk("_oauth2_proxy", "/", nil, true, true, "", 168*time.Hour, "app.example.com"),
 		mk("s", "/", []string{".example.com"}, false, true, "lax", time.Hour, "app.example.com:8080"),
 		mk("__Host-sess", "/", nil, true, true, "strict", 0, "localhost"),
-		mk("a+b", "/app", []string{"app.example.com", "example.com"}, false, false, "none", 90 * time.Second, "app.example.com"),
+		mk("a+b", "/app", []string{"app.example.com", "example.com"}, false, false, "none", 90*time.Second, "app.example.com"),
 		mk(long200, "/", nil, true, true, "lax", 24*time.Hour, "h.example.org"),
 		mk(long253, "/", nil, false, true, "", time.Hour, "h.example.org"),
 		mk(long254, "/", nil, false, true, "", time.Hour, "h.example.org"),
 		mk(long256, "/", nil, false, true, "", time.Hour, "h.example.org"),
-		mk("x_1", "/", []string{"example.org"}, true, false, "lax", 1500 * time.Millisecond, "h.example.org"),
+		mk("x_1", "/", []string{"example.org"}, true, false, "lax", 1500*time.Millisecond, "h.example.org"),
 		mk("_oauth2_proxy_"+strings.Repeat("u", 241), "/", nil, false, true, "", time.Hour, "h.example.org"),
 		mk("_a_"+strings.Repeat("w_", 126)+"z", "/", nil, false, true, "", time.Hour, "h.example.org"),
 		mk(strings.Repeat("p", 120)+"_7", "/", []string{".sub.example.org", ".example.org"}, true, true, "strict", time.Hour, "x.sub.example.org:8443"),
